@@ -402,7 +402,7 @@ SeqsUpTo(S, n) == UNION { [1..k -> S] : k \in 1..n }
 \* them when the module is only instantiated for Args)
 \* S1: valid argument lists without optional metadata.  Core is a sub-cover of
 \* ArgOpt (every argument type, access, stencil family and space class once).
-\* quick: all single arguments and all pairs with at least one Core member;
+\* quick: all single arguments and all pairs whose first member is in Core;
 \* thorough: all pairs and all triples over Core.
 Core == { Fld("real", "inc", "w1", 1, "none"), Fld("real", "read", "w2", 1, "none"),
           Fld("real", "readwrite", "w3", 1, "none"), Fld("real", "write", "wtheta", 3, "none"),
@@ -413,7 +413,7 @@ Core == { Fld("real", "inc", "w1", 1, "none"), Fld("real", "read", "w2", 1, "non
 MaxLen(t) == IF t = "thorough" THEN 3 ELSE 2
 S1(t) == { Plain(a) : a \in SeqsUpTo(ArgOpt, 1) }
          \cup { Plain(a) : a \in { b \in [1..2 -> ArgOpt] :
-                                     t = "thorough" \/ b[1] \in Core \/ b[2] \in Core } }
+                                     t = "thorough" \/ b[1] \in Core } }
          \cup (IF t = "thorough" THEN { Plain(a) : a \in [1..3 -> Core] } ELSE {})
          \* every ordered pair of stencil types next to one written field
          \cup { Plain(<<Fld("real", "readwrite", "w3", 1, "none"),
@@ -434,13 +434,13 @@ Funcs2(b) == { <<[fs |-> f, ops |-> o], [fs |-> g, ops |-> p]>> :
 Shapes == {"xyoz", "face", "edge", "evaluator"}
 AllShapeSeqs == { s \in SeqsUpTo(Shapes, 2) : Len(s) = 2 => s[1] # s[2] }
                 \cup { <<"xyoz", "evaluator", "edge">>, <<"evaluator", "face", "xyoz">> }
-\* quick: every single shape, every pair with the evaluator, two quadrature
-\* pairs and the two triples
+\* quick: every single shape, every pair with the evaluator, one quadrature
+\* pair and the two triples
 ShapeSeqs(t) ==
   IF t = "thorough" THEN AllShapeSeqs
   ELSE { s \in AllShapeSeqs : Len(s) = 2 =>
            \/ "evaluator" \in LRange(s)
-           \/ s \in {<<"xyoz", "face">>, <<"edge", "xyoz">>} }
+           \/ s = <<"edge", "xyoz">> }
 FewShapes == { <<"xyoz">>, <<"evaluator">>, <<"evaluator", "face">> }
 FewOps == { <<"basis">>, <<"diff", "basis">> }
 TargetChoices(t, b, sh) ==
@@ -452,9 +452,11 @@ TargetChoices(t, b, sh) ==
        \cup (IF t = "thorough" THEN { <<f>> : f \in SpacesOf(b) } ELSE {})
   ELSE {<<>>}
 S2Q(t) ==
-  UNION { { Md("cell_column", b, f, sh, tg, <<>>, <<>>) :
-              f \in Funcs1(b), tg \in TargetChoices(t, b, sh) }
-          : b \in Bases(t), sh \in ShapeSeqs(t) }
+  UNION { UNION { { Md("cell_column", b, f, sh, tg, <<>>, <<>>) :
+                      f \in Funcs1(b), tg \in TargetChoices(t, b, sh) }
+                  : sh \in (IF t = "thorough" \/ b = B1 THEN ShapeSeqs(t)
+                            ELSE FewShapes) }
+          : b \in Bases(t) }
   \cup UNION { { Md("cell_column", b, f, sh, <<>>, <<>>, <<>>) :
                    f \in { g \in Funcs2(b) : t = "thorough" \/
                             (g[1].ops \in FewOps /\ g[2].ops \in FewOps) } }
@@ -464,8 +466,10 @@ RefelSeqs == {<<>>} \cup { s \in SeqsUpTo(RefProps, 2) : Len(s) = 2 => s[1] # s[
 MeshSeqs == { <<>>, <<"adjacent_face">> }
 QFew(b) == { <<<<>>, <<>>>>,
              << <<[fs |-> UniqueSpaces(Plain(b))[1], ops |-> <<"basis">>]>>, <<"face">> >> }
-S2R(t) == UNION { { Md("cell_column", b, q[1], q[2], <<>>, r, m) :
-                      q \in QFew(b), r \in RefelSeqs, m \in MeshSeqs }
+\* quick: pairs of properties only without basis functions
+S2R(t) == UNION { { x \in { Md("cell_column", b, q[1], q[2], <<>>, r, m) :
+                             q \in QFew(b), r \in RefelSeqs, m \in MeshSeqs } :
+                      t = "thorough" \/ Len(x.refel) <= 1 \/ x.funcs = <<>> }
                   : b \in (IF t = "thorough" THEN Bases(t) ELSE {B1}) }
 
 \* S3: kernels that operate on the domain
@@ -474,15 +478,17 @@ S3(t) ==
   { Md("domain", a, <<>>, <<>>, <<>>, <<>>, <<>>) : a \in SeqsUpTo(DomainOpt, MaxLen(t)) }
   \cup { Md("domain", <<Fld("real", "readwrite", "w3", 1, "none")>>,
             <<[fs |-> "w3", ops |-> o]>>, sh, <<>>, r, <<>>) :
-           o \in OpsChoices, sh \in {<<"xyoz">>, <<"face", "edge">>},
-           r \in {<<>>, <<"normals_to_faces">>} }
+           o \in (IF t = "thorough" THEN OpsChoices ELSE {<<"basis">>}),
+           sh \in {<<"xyoz">>, <<"face", "edge">>},
+           r \in (IF t = "thorough" THEN {<<>>, <<"normals_to_faces">>} ELSE {<<>>}) }
 
 \* S4: inter-grid kernels
 IgOpt == { FldM(acc, fs, v, m) :
              acc \in {"read", "readwrite"}, v \in {1, 3},
              fs \in {"any_discontinuous_space_1", "any_discontinuous_space_2"},
              m \in {"coarse", "fine"} }
-S4(t) == { Plain(a) : a \in SeqsUpTo(IgOpt, MaxLen(t)) }
+S4(t) == { Plain(a) : a \in SeqsUpTo({ o \in IgOpt : t = "thorough" \/ o.vec = 1 \/ o.acc = "read" },
+                                    MaxLen(t)) }
 
 \* S5: CMA kernels (assembly, application, matrix-matrix)
 CmaSpaces(t) == IF t = "thorough" THEN {<<"w0", "w3">>, <<"w3", "w3">>, <<"w3", "w0">>, <<"w0", "w0">>}
@@ -509,7 +515,11 @@ Smoke == { Plain(<<Fld("real", "inc", "w1", 1, "none")>>),
            Md("cell_column", B1, <<[fs |-> "w1", ops |-> <<"basis", "diff">>]>>, <<"xyoz">>,
               <<>>, <<>>, <<"adjacent_face">>),
            Md("cell_column", B2, <<[fs |-> "w0", ops |-> <<"basis">>]>>, <<"evaluator", "face">>,
-              <<>>, <<"normals_to_horizontal_faces">>, <<>>) }
+              <<>>, <<"normals_to_horizontal_faces">>, <<>>),
+           Md("cell_column", B1, <<[fs |-> "w2", ops |-> <<"diff", "basis">>]>>, <<"evaluator">>,
+              <<"w2", "w1">>, <<>>, <<>>),
+           Md("cell_column", B1, <<[fs |-> "w1", ops |-> <<"diff">>]>>, <<"evaluator">>,
+              <<>>, <<>>, <<>>) }
 
 MdSetOf(t) ==
   IF t = "smoke" THEN Smoke
